@@ -72,6 +72,19 @@ Theorem C09_decide_iff_spec : forall use_auth admin st r hdr,
   decide use_auth admin st (needs_admin r) hdr = Reached <-> spec_reaches use_auth admin st r hdr = true.
 Proof. exact decide_iff_spec. Qed.
 
+(* a FAILING token lookup (storage error) fails closed: only the admin token (compared before the lookup) still
+   reaches a handler, nothing is admitted that a working store would refuse, and the admin is not locked out *)
+Theorem C09_store_failure_fails_closed : forall admin st wrapped hdr,
+  decide true admin (visible false st) wrapped hdr = Reached ->
+  hdr = "Bearer " ++ admin /\ no_spaceb admin = true.
+Proof. exact store_failure_fails_closed. Qed.
+Theorem C09_store_failure_admits_no_more : forall admin st wrapped hdr,
+  decide true admin (visible false st) wrapped hdr = Reached -> decide true admin st wrapped hdr = Reached.
+Proof. exact store_failure_admits_no_more. Qed.
+Theorem C09_store_failure_admin_still_admin : forall admin st wrapped,
+  no_spaceb admin = true -> decide true admin (visible false st) wrapped ("Bearer " ++ admin) = Reached.
+Proof. exact store_failure_admin_still_admin. Qed.
+
 (* ---- this run's routing table (all 8 configurations use_auth x profiling x metrics) ---- *)
 
 Lemma table_checked : forallb cfg_ok all_configs = true.
@@ -114,6 +127,9 @@ Print Assumptions C09_admin_routes.
 Print Assumptions C09_denied_reason.
 Print Assumptions C09_auth_off_passes.
 Print Assumptions C09_decide_iff_spec.
+Print Assumptions C09_store_failure_fails_closed.
+Print Assumptions C09_store_failure_admits_no_more.
+Print Assumptions C09_store_failure_admin_still_admin.
 Print Assumptions C09_outside_prefix_allowlisted.
 Print Assumptions C09_allow_spec.
 Print Assumptions C09_same_api_routes.
